@@ -46,6 +46,10 @@ func FromReader(reader io.Reader) (*Dialogue, error) {
 	if err != nil {
 		return nil, fmt.Errorf("failed to read content: %w", err)
 	}
+	if len(scriptData) == 0 {
+		return nil, errors.New("dialogue is empty")
+	}
+
 	input := antlr.NewInputStream(string(scriptData))
 	var (
 		lexer    = parser.NewYarnSpinnerLexer(input)
@@ -54,7 +58,44 @@ func FromReader(reader io.Reader) (*Dialogue, error) {
 		listener = &parserListener{}
 	)
 
-	antlr.ParseTreeWalkerDefault.Walk(listener, p.Dialogue())
+	errorListener := &syntaxErrorListener{DefaultErrorListener: antlr.NewDefaultErrorListener()}
+	lexer.RemoveErrorListeners()
+	lexer.AddErrorListener(errorListener)
+	p.RemoveErrorListeners()
+	p.AddErrorListener(errorListener)
+
+	dialogueContext, err := parseDialogue(p)
+	if err != nil {
+		return nil, err
+	}
+	if len(errorListener.errors) > 0 {
+		return nil, fmt.Errorf("failed to parse dialogue: %w", errors.Join(errorListener.errors...))
+	}
+
+	antlr.ParseTreeWalkerDefault.Walk(listener, dialogueContext)
+
+	if listener.dialogue == nil || len(listener.dialogue.Nodes) == 0 {
+		return nil, errors.New("dialogue does not contain any node")
+	}
 
 	return listener.dialogue, nil
+}
+
+// parseDialogue runs the parser, converting panics raised while lexing (eg. on inconsistent indentation) into errors.
+func parseDialogue(p *parser.YarnSpinnerParser) (ctx parser.IDialogueContext, err error) {
+	defer func() {
+		if r := recover(); r != nil {
+			err = fmt.Errorf("failed to parse dialogue: %v", r)
+		}
+	}()
+	return p.Dialogue(), nil
+}
+
+type syntaxErrorListener struct {
+	*antlr.DefaultErrorListener
+	errors []error
+}
+
+func (l *syntaxErrorListener) SyntaxError(_ antlr.Recognizer, _ interface{}, line, column int, msg string, _ antlr.RecognitionException) {
+	l.errors = append(l.errors, fmt.Errorf("line %d:%d %s", line, column, msg))
 }
